@@ -101,6 +101,9 @@ def compositions(n, max_parts):
     return out
 
 
+CHUNK_EXT_FORMS = {"bws": b" ;name=val", "bws2": b" ; name = val", "tab": b"\t;x", "upper0": b""}
+
+
 def frame(body, framing, chunks=None, ext=False, trailers=False, ce=None, extra_headers=(), te_value="chunked"):
     """-> (head bytes, wire body bytes, marks) ; marks = offsets in head+wire where a structural
     boundary falls (end of head, chunk ends)"""
@@ -122,9 +125,15 @@ def frame(body, framing, chunks=None, ext=False, trailers=False, ce=None, extra_
         out = bytearray()
         p = 0
         for n in sizes:
-            out += b"%x" % n
-            if ext:
+            # ext: True = plain extensions; a name = one of the other well-formed spellings of a chunk line (RFC 9112
+            # 7.1.1: chunk-size = 1*HEXDIG in either case, any number of leading zeros; BWS is allowed around ';' and '=')
+            out += (b"%04X" % n) if ext == "upper0" else (b"%x" % n)
+            if ext is True:
                 out += b";ext=1;q=\"v\""
+            elif ext in CHUNK_EXT_FORMS:
+                out += CHUNK_EXT_FORMS[ext]
+            elif ext:
+                raise KeyError(ext)
             out += b"\r\n" + body[p:p + n] + b"\r\n"
             p += n
             marks.append(len(out))
